@@ -785,3 +785,14 @@ impl<'r, Ctx: OptCtx> LoweredToMir<'r, Ctx> {
         crate::verif_hooks::c01::stage_pairs_of(&mir, &lowered.ir)
     }
 }
+
+#[cfg(feature = "verif-hooks")]
+impl<Ctx: OptCtx> Package<Ctx> {
+    /// Verification hook (C04): the function table of the compiled module
+    /// (see `Module::verif_c04_function_table`).
+    pub fn verif_c04_function_table(
+        &self,
+    ) -> Vec<crate::verif_hooks::c04::TableEntry> {
+        self.module.verif_c04_function_table()
+    }
+}
